@@ -110,8 +110,13 @@ func (e *Env) Report(engine string, prop string, vs []Violation) (exit int, unli
 	}
 	sort.SliceStable(vs, func(i, j int) bool { return vs[i].Key < vs[j].Key })
 	seenKnown := map[string]bool{}
+	seenViol := map[string]bool{}
 	n := 0
 	for _, v := range vs {
+		if seenViol[v.Class+"|"+v.Key] {
+			continue
+		}
+		seenViol[v.Class+"|"+v.Key] = true
 		if k := fs.Match(v); k != nil {
 			line := fmt.Sprintf("KNOWN-FINDING: property=%s %s", prop, k.Text)
 			if !seenKnown[line] {
